@@ -188,9 +188,10 @@ LEVEL_TEXT = ("Kernel-checked Lean theorems over ALL IDL specifications of the m
               "C41_structure_partial (every struct at any module depth is generated once, one field per declarator, in order, with the declared "
               "name and the image of the declared type), C41_type_mapping_partial, C41_annotations (key / id / optional reach the derive macro for "
               "EVERY declarator of EVERY member) and C41_struct_header (qualified name and extensibility, both spellings) — both full since the "
-              "repairs D-gen-14/15/16 —, C41_describe_names / C41_describe_flags (composition with C40), C41_bit_bound, C41_boolean_constant. "
-              "Six defects found by this check were repaired (fixes/D-gen-14, 15, 16, 24, 28 and D-gen-4 = D-gen-19); their old behaviour is kept as "
+              "repairs D-gen-14/15/16 —, C41_describe_names / C41_describe_flags (composition with C40), C41_bit_bound_partial, C41_constant_partial. "
+              "Four defects found by this check were repaired and committed (D-gen-14, 15, 16 and D-gen-4 = D-gen-19); their old behaviour is kept as "
               "Lean regression witnesses on ...Old model functions and as corpus cases. Still FALSE for the code as it is (known findings): "
+              "@bit_bound spelling and TRUE / FALSE constants (D-gen-24, D-gen-28: repairs exist, but change what two baseline tests assert), "
               "bounds dropped, multi-dimensional arrays, wide types, octet, union member names, union annotations rejected, typedef arrays panic, "
               "optional constructed members, nested sequences, scoped names, `>>`, panics on unsupported constructs, unknown types.")
 LEVEL_NOTE = ("Trusted: Lean kernel; Model/Idl.lean (transcription of generator/rust.rs, the accept/reject behaviour of the grammar for the "
@@ -200,4 +201,3 @@ LEVEL_NOTE = ("Trusted: Lean kernel; Model/Idl.lean (transcription of generator/
 TECHNIQUE = "Lean 4 theorems over the IDL AST + differential correspondence: real compiler -> generated crate compiled against dust_dds -> type descriptions"
 DESIGN_REF = "DESIGN.md section 5 C41"
 TRUSTED_EXTRA = ["generated crate around the real compiler's output (vlib/gen_idl.py), compiled by rustc against the repo checkout"]
-CLAIMED = False   # the IDL model is being re-aligned with main (two of the generator repairs could not be committed: they would edit baseline tests)
